@@ -107,7 +107,7 @@ def run(tier="quick", seed=0, arg=None):
     # rules are keyed on exactly these coincidences (substring vs whole word vs equal); always in full, on environments that vary that variable
     from ..mpools import ENV_STRINGS, STRING_VARS
     for var, lits in STRING_VARS.items():
-        lits = list(lits) + {"sys_platform": ["linux2 darwin"], "platform_machine": ["x86_64,arm64"], "os_name": ["nt posix"], "implementation_name": ["cpython pypy"]}[var]
+        lits = list(lits) + {"sys_platform": ["linux2 darwin"], "platform_machine": ["x86_64,arm64"], "os_name": ["nt posix"], "implementation_name": ["cpython pypy"], "platform_version": ["10.0 10.0.0"]}[var]
         ats = [(f'{var} {op} "{l}"', l) for op in ("==", "!=", "in", "not in") for l in lits] + [(f'"{l}" {op} {var}', l) for op in ("in", "not in") for l in lits]
         venvs = [dict(envs[0], **{var: v}) for v in ENV_STRINGS[var]]
         for ta, la in ats:
